@@ -14,7 +14,7 @@ for m in sorted(os.listdir(src)):
     caught = {k: (v["violations"], v["no_input"]) for k, v in res.get("checks", {}).items()}
     print(pid, m, "valid" if res["valid_seed"] else f"INVALID clean={res.get('demo_clean_rc')} patched={res.get('demo_patched_rc')} missing={res.get('baseline_missing')} apply={res.get('apply_rc')}", caught, flush=True)
     if res["valid_seed"]:
-        dst = f"/verif/seeded/{pid}_{m}"
+        dst = f"/verif/seeded/{pid}_{os.environ.get('SEED_TAG', '')}{m}"
         os.makedirs(dst, exist_ok=True)
         for f in ("patch.diff", "demo.py"):
             shutil.copy(os.path.join(d, f), dst)
